@@ -158,3 +158,27 @@ def run(ctx):
             if abs(got - want) > 6 * sig + 2e-3:   # 2e-3: fit tolerance moving toys across the q_obs boundary
                 ctx.fail(f'C14/toy-{nm}', f'toy {nm} differs from the exact tail probability beyond 6σ binomial error', inp, got, want)
         ctx.sample({'toy_case': inp, 'toy': [clsb, clb], 'exact': [esb, eb]})
+    # ---------------- one calculator scanned over several tested values: each call must behave like a fresh calculator's
+    import importlib
+    calcmod2 = importlib.import_module('pyhf.infer.calculators')
+    for _ in range(ctx.n(2, 12)):
+        s = rng.choice([4.0, 6.0]); b = rng.choice([8.0, 15.0]); n_obs = float(rng.choice([int(b), int(b + s), int(b) - 2]))
+        m = pyhf.Model(counting.single_bin_spec(s, b), poi_name='mu')
+        data = [n_obs] + m.config.auxdata
+        mus = rng.sample([0.5, 1.0, 1.5, 3.0], 3); nt = ctx.n(150, 600); sd = rng.randrange(2**31)
+        calc = calcmod2.ToyCalculator(data, m, test_stat='qtilde', ntoys=nt, track_progress=False)
+        for j, mu in enumerate(mus):
+            np.random.seed(sd + j)
+            sb, bo = calc.distributions(mu); q = calc.teststatistic(mu); reused = [float(x) for x in calc.pvalues(q, sb, bo)]
+            fresh_c = calcmod2.ToyCalculator(data, m, test_stat='qtilde', ntoys=nt, track_progress=False)
+            np.random.seed(sd + j)
+            sbf, bof = fresh_c.distributions(mu); qf = fresh_c.teststatistic(mu); fresh = [float(x) for x in fresh_c.pvalues(qf, sbf, bof)]
+            ctx.count()
+            inp = {'s': s, 'b': b, 'n': n_obs, 'scan': mus, 'position': j, 'ntoys': nt, 'numpy_seed': sd + j}
+            if reused != fresh or [float(x) for x in sb.samples] != [float(x) for x in sbf.samples]:
+                ctx.fail('C14/calculator-reuse', 'a toy calculator used for a second tested value gives different tail fractions than a fresh calculator with the same random stream', inp, reused, fresh)
+            esb, eb, _ = exact_tails('qtilde', mu, n_obs, s, b)
+            for nm, got, want in (('CLsb', reused[0], esb), ('CLb', reused[1], eb)):
+                sig = math.sqrt(max(want * (1 - want), 1e-4) / nt)
+                if abs(got - want) > 6 * sig + 2e-3:
+                    ctx.fail(f'C14/toy-{nm}', f'toy {nm} of a reused calculator differs from the exact tail probability beyond 6σ binomial error', inp, got, want)
